@@ -307,9 +307,20 @@ def run(scn):
     try:
         obj2 = parse(value, base)
     except Exception as e:
-        ev.append({'ev': 'Parse', 'v': classify_exc(e), 'm': NA})
+        ev.append({'ev': 'Parse', 'v': classify_exc(e), 'm': NA, 'eq': NA, 'printable': True})
         return {'scn': scn, 'ev': ev}
-    ev.append({'ev': 'Parse', 'v': 'Ok', 'm': a_msg(obj2)})
+    # the library's own notion of equality between the message that was built and the one that came back, and str / repr
+    eq = NA
+    if mode == 'rt':
+        try:
+            eq = 'yes' if (obj2 == obj and not (obj2 != obj)) else 'no'
+        except Exception as e:
+            eq = 'raise:' + type(e).__name__
+    try:
+        printable = isinstance(str(obj2), str) and isinstance(repr(obj2), str)
+    except Exception:
+        printable = False
+    ev.append({'ev': 'Parse', 'v': 'Ok', 'm': a_msg(obj2), 'eq': eq, 'printable': printable})
     try:
         ev.append({'ev': 'Reser', 'wire': a_doc(json.loads(json.dumps(obj2.to_json(), cls=pjrpc.JSONEncoder)))})
     except Exception as e:
